@@ -21,8 +21,11 @@ import (
 // GovAddr is the gov module account: the authority of every MsgUpdateParams.
 var GovAddr = authtypes.NewModuleAddress(govtypes.ModuleName)
 
-// GovMinDeposit is the deposit FastGov configures (in the native denom).
-const GovMinDeposit = 1000
+// GovMinDeposit is the deposit FastGov configures (in the native denom): 0.01 ether, more than the fee of
+// one message transaction, so that the gov module account can pay a fee while a proposal is in its
+// voting period (a user-signed transaction naming the gov account as signer then reaches signature
+// verification instead of failing on the fee).
+const GovMinDeposit = 10_000_000_000_000_000
 
 // FastGov is a MutateGenesis step: voting period 2 s (expedited 1 s), minimum deposit
 // GovMinDeposit of the native denom. With the default 5 s block step a proposal submitted and
